@@ -28,6 +28,7 @@ func runC04(c *core.Ctx) {
 	c.Rule("R3", "readers never see tombstones: closed census of ValueDesc.value accesses; get = Clone + RemoveTombstones(zero) on every non-nil path; reader exits receive get's result", 11)
 	c.Rule("R4", "RemoveTombstones call sites: zero-limit on the clone in get; retention-bounded (now - LeftIngestersTimeout, under LeftIngestersTimeout > 0) in mergeValueForKey; nowhere else", 3)
 	c.Rule("R5", "RemoveTombstones implementations delete ⇔ tombstone ∧ (limit.IsZero() ∨ timestamp.Before(limit))", 3)
+	c.Rule("R7", "Clone copies every entry, tombstones included (gossiped changes and push/pull are clones of stored values)", 2)
 	c.Rule("R6", "push/pull (LocalState) encodes the stored value with its tombstones, freshly on every call", 2)
 
 	fns := mergeFns(c, "R1")
@@ -459,6 +460,7 @@ func c04Readers(c *core.Ctx) {
 			}
 		}
 	}
+	c04CloneComplete(c, "R7")
 	c04LocalState(c, "R6")
 	_ = exits
 }
@@ -528,5 +530,61 @@ func c04LocalState(c *core.Ctx, R string) {
 		}
 	} else {
 		c.Miss(R, "func=KV.LocalState", "not found")
+	}
+}
+
+// c04CloneComplete (R7): the KV store clones a value before it is gossiped, pushed or handed to readers;
+// only the reader path strips tombstones afterwards. A Clone that leaves entries out makes a tombstone
+// invisible to the cluster. Every Clone of a ring Mergeable either delegates to a library copy
+// (maps.Clone / proto.Clone) or stores every element of each receiver map it ranges over: the store under
+// the loop key is executed on every path of an iteration.
+func c04CloneComplete(c *core.Ctx, R string) {
+	pkg := c.Prog.Pkg("ring")
+	for _, name := range []string{"Desc.Clone", "PartitionRingDesc.Clone"} {
+		fn := an.FindFunc(pkg, name)
+		if fn == nil {
+			c.Miss(R, "func="+name, "not found")
+			continue
+		}
+		c.Analysed(fn.String())
+		g := fn.Graph()
+		lib := 0
+		for _, call := range fn.Calls(false) {
+			if call.Is("maps", "Clone") || call.Is("proto", "Clone") || call.Is("github.com/gogo/protobuf/proto", "Clone") {
+				lib++
+			}
+		}
+		var bad []string
+		loops := 0
+		fn.InspectShallow(func(n ast.Node) bool {
+			rs, ok := n.(*ast.RangeStmt)
+			if !ok || !strings.HasPrefix(fn.Canon(rs.X), "recv.") {
+				return true
+			}
+			if _, isMap := fn.Info().TypeOf(rs.X).Underlying().(*types.Map); !isMap {
+				return true
+			}
+			loops++
+			header, body, _ := g.LoopBlocks(rs)
+			var stores []an.Loc
+			ast.Inspect(rs.Body, func(m ast.Node) bool {
+				if as, ok := m.(*ast.AssignStmt); ok && len(as.Lhs) == 1 {
+					if ix, ok := as.Lhs[0].(*ast.IndexExpr); ok && fn.Canon(ix.Index) == "keyof("+fn.Canon(rs.X)+")" {
+						stores = append(stores, g.Locate(as))
+					}
+				}
+				return true
+			})
+			if len(stores) != 1 || body == nil {
+				bad = append(bad, fmt.Sprintf("loop over %s: %d stores under the loop key", fn.Canon(rs.X), len(stores)))
+				return true
+			}
+			ex := g.Exec(an.Loc{B: body, I: 0}, stores, func(ast.Expr, an.Store) an.Tri { return an.U }, an.ExecOpts{Header: header})
+			if !ex.Must[0] {
+				bad = append(bad, fmt.Sprintf("loop over %s: some iteration skips the copy", fn.Canon(rs.X)))
+			}
+			return true
+		})
+		c.Check(len(bad) == 0 && (lib > 0 || loops > 0), R, "func="+name, fn.Pos(), fmt.Sprintf("library copies: %d; hand-written loops over receiver maps: %d, each copying every element: %v", lib, loops, bad), 1)
 	}
 }
